@@ -161,6 +161,10 @@ def check_c05(pid, tier, t0, replay_key):
     obl += o2
     samples += s2
     st1.update(st2)
+    ft3, ot3, stt3 = e5.rule_t3(P)
+    findings += ft3
+    obl += ot3
+    st1.update(stt3)
     measured = {"functions_scanned": st3["functions_scanned"], "discard_sites": st3["discard_sites"],
                 "merge_list": len(st1["merge_list"]), "has_arms": st1["has_arms"], "bytes_for_arms": st1["bytes_for_arms"],
                 "count_fields_checked": st1["count_fields_checked"]}
@@ -351,6 +355,10 @@ def check_c13(pid, tier, t0, replay_key):
     samples += s
     st.update(s2)
     f, o, s, s2 = e5.rule_l3(P, tables)
+    findings += f
+    obl += o
+    st.update(s2)
+    f, o, s2 = e5.rule_l5(P)
     findings += f
     obl += o
     st.update(s2)
